@@ -182,7 +182,7 @@ func CheckPanic(ep *core.Episode, prop string, c *SrvConn) bool {
 		return false
 	}
 	if PanicInHertz(c.PanicStk) {
-		ep.Fail(prop+".panic", "panic in hertz while serving %s: %v at %s", c.Name, c.PanicVal, panicTop(c.PanicStk))
+		ep.Fail(prop+".panic:"+shortFunc(panicTop(c.PanicStk)), "panic in hertz while serving %s: %v at %s", c.Name, c.PanicVal, panicTop(c.PanicStk))
 	} else {
 		ep.Infra = fmt.Sprintf("harness panic: %v\n%s", c.PanicVal, c.PanicStk)
 	}
@@ -220,6 +220,8 @@ type Client struct {
 	// CloseWhenDone: FIN once everything was sent and all responses arrived
 	// (or the server closed).
 	CloseWhenDone bool
+	// FinWhenQuiet: FIN as soon as everything was sent and delivered and the server waits for more
+	FinWhenQuiet bool
 	// NoInterim: a 100 status is an ordinary final response (no Expect: 100-continue in play)
 	NoInterim    bool
 	finSent      bool
@@ -261,6 +263,9 @@ func (cl *Client) Parse() {
 		cl.RespEnds = append(cl.RespEnds, cl.off)
 	}
 }
+
+// SetOffset marks the first n received bytes as decoded.
+func (cl *Client) SetOffset(n int) { cl.off = n }
 
 // Leftover returns received bytes not accounted for by complete responses.
 func (cl *Client) Leftover() []byte { return cl.C.Rx[cl.off:] }
@@ -310,6 +315,13 @@ func (cl *Client) Enabled(add func(core.Event)) {
 		}
 		return
 	}
+	if cl.FinWhenQuiet && !cl.finSent && !cl.pendingTimer && !cl.C.B.IsClosed() && cl.C.A.InflightTo() == 0 && cl.C.A.ReaderParked() {
+		add(core.Event{Key: "peer-fin-quiet " + cl.C.Name, Weight: 20, Apply: func() {
+			cl.finSent = true
+			cl.C.B.CloseWrite()
+		}})
+		return
+	}
 	if cl.CloseWhenDone && !cl.finSent && !cl.C.B.IsClosed() &&
 		(len(cl.Resps) >= len(cl.Methods) || cl.C.B.PeerClosedWrite()) {
 		add(core.Event{Key: "peer-fin " + cl.C.Name, Weight: 20, Apply: func() {
@@ -320,3 +332,11 @@ func (cl *Client) Enabled(add func(core.Event)) {
 }
 
 func stackString() string { return string(debug.Stack()) }
+
+// shortFunc turns "github.com/cloudwego/hertz/pkg/protocol.(*Cookie).ParseBytes" into "protocol.(*Cookie).ParseBytes".
+func shortFunc(f string) string {
+	if i := strings.LastIndexByte(f, '/'); i >= 0 {
+		f = f[i+1:]
+	}
+	return f
+}
